@@ -143,6 +143,10 @@ FAULTS = {
     "rad50-code-too-large": [".rad50 <50>"],
     "overlong-tape-name": ['make_wav "x.wav", "12345678901234567"'],
     "excess-hash": [".word #1"],
+    "end-in-lazy-repeat": [".repeat er{i} {{ .end }}", "er{i} = 1"],
+    "once-in-lazy-repeat": [".repeat or{i} {{ nop\n.once }}", "or{i} = 2"],
+    "include-in-lazy-repeat": ['.repeat ir{i} {{ .include "inc1.mac" }}', "ir{i} = 2"],
+    "rad50-digits-overflow": [".rad50 /ABC/<50>/99/"],
 }
 
 NO_SPACE_BEFORE = {",", ":", "::", ")", ")+", "nl"}
@@ -237,7 +241,12 @@ def safe(text):
     for m in _REPEAT.finditer(text):
         op = m.group(1).rstrip("{")
         if not _LIT.match(op):
-            return False, "repeat-count"
+            # a symbolic count is inside the bounds when the text itself defines the symbol as a one-digit literal
+            # ('.repeat n { ... }' / 'n = 2': the body is then compiled late, a case of its own)
+            d = re.search(r"(?m)^\s*" + re.escape(op.strip()) + r"\s*=\s*([0-7])\s*$", text) if re.fullmatch(r"\s*[A-Za-z_][A-Za-z0-9_]*\s*", op) else None
+            if d is None:
+                return False, "repeat-count"
+            op = d.group(1)
         v = abs(int(op.rstrip("."), 10))
         if v > 64:
             return False, "repeat-count"
